@@ -303,16 +303,17 @@ func c12(c *core.Ctx) {
 	}
 	var nows []ssa.Instruction
 	subOK := false
-	for i, st := range sts {
+	for i, as := range expandStores(sts) {
+		st := as.St
 		key := fmt.Sprintf("pollNewMessages|MessageExpiry-store#%d", i)
-		if k, isC := constInt(st.Val); isC {
+		if k, isC := constInt(as.Val); isC {
 			c.Check(k >= 1, "C12.R3", key, ipos(c, st), "constant floor >= 1", "a message published with an expiry interval is forwarded with interval 0 (= no expiry)")
 			continue
 		}
-		set := ssax.Backward(st.Val)
+		set := ssax.Backward(as.Val)
 		fromOld := ssax.AnyIn(set, isMsgExp)
 		c.Check(fromOld, "C12.R3", key+"|from-received", ipos(c, st), "computed from the received interval", "the forwarded interval is not computed from the received Message Expiry Interval (e.g. the elapsed time or the queue deadline is forwarded)")
-		bo, isSub := st.Val.(*ssa.BinOp)
+		bo, isSub := as.Val.(*ssa.BinOp)
 		if isSub && bo.Op == token.SUB && isMsgExp(bo.X) {
 			// waited derives from time elapsed since Elem.At
 			wset := ssax.BackwardOpt(bo.Y, func(call *ssa.Call) bool {
@@ -343,7 +344,7 @@ func c12(c *core.Ctx) {
 			}
 			// no underflow: guarded by waited < old
 			okG := false
-			for _, g := range ssax.Guards(st) {
+			for _, g := range ssax.Guards(as.At) {
 				gb, ok := g.Cond.(*ssa.BinOp)
 				if !ok {
 					continue
@@ -368,7 +369,7 @@ func c12(c *core.Ctx) {
 	}
 	if len(sts) > 0 {
 		allFromOld := true
-		for _, st := range sts {
+		for _, st := range expandStores(sts) {
 			if _, isC := constInt(st.Val); !isC && !ssax.AnyIn(ssax.Backward(st.Val), isMsgExp) {
 				allFromOld = false
 			}
